@@ -229,7 +229,7 @@ def gen_dense(draw, tier):
 
 
 PARTS = [
-    Part('trees', check_trees, strategy=gen_trees, n={'quick': 300, 'thorough': 6000}, workers={'quick': 4, 'thorough': 16}),
+    Part('trees', check_trees, strategy=gen_trees, n={'quick': 600, 'thorough': 6000}, workers={'quick': 4, 'thorough': 16}),
     Part('automata', check_automaton, strategy=gen_automaton, n={'quick': 300, 'thorough': 6000}, workers={'quick': 4, 'thorough': 16}),
     Part('dense_meaning', check_dense_meaning, strategy=gen_dense, n={'quick': 150, 'thorough': 2500}, workers={'quick': 2, 'thorough': 16}),
     Part('fuzz_trees', None, fuzz_of='trees', runs={'quick': 0, 'thorough': 20000}, workers={'quick': 0, 'thorough': 4},
